@@ -782,7 +782,7 @@ def expected_single(tomo_id, tomo_dim, pixel_size, tlt_file, z_shift, ctf_file, 
         raise OutOfDomain("tilts")
     if tkind == "file":
         raw = read_numbers(tlt_file)
-        if np.any(np.diff(raw) <= 0):
+        if np.any(np.diff(raw) < 0):
             raise OutOfDomain("tilt file not ascending: the pairing with the i-th defocus/dose is not defined")
     if tkind == "mdoc" and len(set(tilts.tolist())) != len(tilts):
         raise OutOfDomain("tilt ties in mdoc")
